@@ -369,8 +369,8 @@ func c38Enumerate(c *lib.Ctx, yield func(c38Case) bool) {
 		}
 	}
 	if c.Thorough() {
-		// URL guard, dial, redirect check back to the same name, dial again: every 4-sequence over a reduced alphabet
-		idx := []int{0, 1, 3, 5, 9, 13, 16, 21}
+		// URL guard, dial, redirect check back to the same name, dial again: every 4-sequence over 12 of the answers
+		idx := []int{0, 1, 3, 4, 5, 8, 9, 10, 13, 16, 19, 21}
 		for _, i1 := range idx {
 			for _, i2 := range idx {
 				for _, i3 := range idx {
@@ -752,7 +752,7 @@ func init() {
 		Rule: fmt.Sprintf("full product of %d destination addresses (every class of the statement with both boundary addresses, the addresses just outside, public controls, a few unnamed ranges) x encodings "+
 			"(dotted; IPv4-mapped IPv6 dotted/hex/upper/expanded/zero-padded/zoned; IPv6 compressed/full/upper/zoned; short, octal, hex, 32-bit decimal/hex, trailing-dot and full-width forms, the latter being host names for Go and resolved by the environment as {unknown, inet_aton reading}) x entry points "+
 			"{URL guard, the client's CheckRedirect, the client's Transport.Proxy with a proxy configured, the client's Transport.DialContext, URL-guard-then-dial flow} x %d URL decorations (scheme, port, userinfo tricks, '@' in fragment/query, backslash, schemeless, unbracketed IPv6) x environment {default, opt-out=0, proxy configured for another host; opt-in=1 and dial-target-is-the-proxy recorded only}; "+
-			"host names x %d scripted DNS answers (each internal class, IPv4-mapped AAAA, mixed public+internal in both orders and across A/AAAA, NXDOMAIN, no data) served by an in-process fake DNS, and every pair of answers for the re-resolution flow guard->dial [thorough: every 4-sequence over 8 answers for guard->dial->redirect->dial]. "+
+			"host names x %d scripted DNS answers (each internal class, IPv4-mapped AAAA, mixed public+internal in both orders and across A/AAAA, NXDOMAIN, no data) served by an in-process fake DNS, and every pair of answers for the re-resolution flow guard->dial [thorough: every 4-sequence over 12 answers for guard->dial->redirect->dial]. "+
 			"Oracle: an independent byte-level CIDR classifier; a destination in a named class must be refused (a let-through shows as nil error / *net.OpError{Op:dial}); no dial can reach the network (cancelled context or unknown network). Each (destination, encoding, entry, decoration, environment) tuple is a distinct case.",
 			len(c38Addrs), len(c38Decos)+1, len(c38Answers)),
 		Sharded:     true,
